@@ -97,3 +97,5 @@ package multi
 //@   assert call Transport).Close: cancelled && owed
 //@   ensures cancelled && exhausted && !owed
 //@   loop 1 invariant cancelled && !owed && !exhausted
+
+//@ guarded[C09] RoundRobinPoller.mu: currentIndex
